@@ -795,7 +795,7 @@ func (f *sdFam) Random(rng *rand.Rand) M {
 	case r < 52:
 		return M{"a": "setip", "s": prover(), "dom": f.doms[rng.Intn(len(f.doms))]}
 	case r < 54:
-		return M{"a": "setprice", "v": int64([]int{2, 500, 1000, 2500}[rng.Intn(4)])}
+		return M{"a": "setprice", "v": int64([]int{2, 500, 1000, 2500, 9000, 25000}[rng.Intn(6)])}
 	case r < 60:
 		if uf, ok := f.pickFile(rng); ok {
 			return M{"a": "reqattest", "s": listedProver(uf), "f": f.fidStep(uf)}
